@@ -421,6 +421,7 @@ pub fn run(ctx: &Arc<Ctx>) {
     ctx.set_rule("stateright BFS per call site (13 operations): the byte source behind the sampler answers with every sequence of <= D out-of-range candidates from {0, order, order+1, p-2, p-1, p, 2^256-1} followed by one in-range candidate from {1, 2, order-2, order-1, 2^255, mid}; in every terminal state the scalar the operation used — read from its public output with the reference (d; k = s(1+d)+rd; C1 = [k]G; R = [r]G; ks/ke; SM9 (h,S), C1, R_A, R_B recomputed) and from the seam log — must be one of the offered candidates and lie in [1, order-1]. Freshness: every operation sequence of length <= L on one thread over a strictly increasing candidate stream consumes a new candidate per invocation and never reuses a scalar. A separate statistical monitor (4096 draws per sampler) is NOT model checking.");
     ctx.note_bound(format!("D={} deviations, L={} operations", dmax, fresh_len));
     // ---- range model
+    let mut range_cases: Vec<Case> = Vec::new();
     for op in OPS {
         let (inr, out) = alphabets(op, ctx.seed);
         let (ni, no) = (inr.len() as u16, out.len() as u16);
@@ -428,9 +429,9 @@ pub fn run(ctx: &Arc<Ctx>) {
         let (inr2, out2) = (inr.clone(), out.clone());
         let ops = op.to_string();
         // history: out-of-range picks are coded 100+i, the final in-range pick i
-        let model = HistModel {
-            inits: vec![vec![]],
-            actions: Box::new(move |h: &[u16]| {
+        let (st, hists) = explore_collect(
+            vec![vec![]],
+            Box::new(move |h: &[u16]| {
                 if h.last().map(|x| *x < 100).unwrap_or(false) {
                     return vec![];
                 }
@@ -440,45 +441,30 @@ pub fn run(ctx: &Arc<Ctx>) {
                 }
                 a
             }),
-            visit: Arc::new(move |h: &[u16]| {
-                if h.last().map(|x| *x < 100).unwrap_or(false) {
-                    let mut offered = Vec::new();
-                    let mut names = Vec::new();
-                    for x in h {
-                        let (n, v) = if *x >= 100 { &out2[(*x - 100) as usize] } else { &inr2[*x as usize] };
-                        offered.push(a2::hexbig(v));
-                        names.push(n.clone());
-                    }
-                    let c = Case::Range { op: ops.clone(), offered, names };
-                    eval(&c2, &c);
-                    prefix_push(serde_json::to_value(&c).unwrap());
-                }
-            }),
-            batch: 16,
-        };
-        let st = explore(model);
+        );
+        let _ = (&c2, &inr2, &out2);
+        for h in hists.iter().filter(|h| h.last().map(|x| *x < 100).unwrap_or(false)) {
+            let mut offered = Vec::new();
+            let mut names = Vec::new();
+            for x in h {
+                let (n, v) = if *x >= 100 { &out[(*x - 100) as usize] } else { &inr[*x as usize] };
+                offered.push(a2::hexbig(v));
+                names.push(n.clone());
+            }
+            range_cases.push(Case::Range { op: ops.clone(), offered, names });
+        }
         ctx.depth(st.max_depth);
         ctx.cov(&format!("range_model/{}", op), json!({"unique_states": st.unique_states, "generated": st.generated, "max_depth": st.max_depth, "in_range": inr.len(), "out_of_range": out.len()}));
     }
-    ctx.sample(json!({"Range": {"op": "sm2.sign", "names": ["order", "p-1", "order-1"], "offered": ["<n>", "<p-1>", "<n-1>"]}}));
+    ctx.sample(serde_json::to_value(&range_cases[range_cases.len() / 3]).unwrap());
+    run_cases(ctx, &range_cases, 2, eval);
     // ---- freshness model
     {
-        let c2 = ctx.clone();
-        let model = HistModel {
-            inits: vec![vec![]],
-            actions: Box::new(move |h: &[u16]| if h.len() < fresh_len { (0..OPS.len() as u16).collect() } else { vec![] }),
-            visit: Arc::new(move |h: &[u16]| {
-                if h.len() >= 2 || (h.len() == 1 && fresh_len == 1) {
-                    let c = Case::Fresh { ops: h.iter().map(|i| OPS[*i as usize].to_string()).collect() };
-                    eval(&c2, &c);
-                    prefix_push(serde_json::to_value(&c).unwrap());
-                }
-            }),
-            batch: 8,
-        };
-        let st = explore(model);
-        ctx.cov("freshness_model", json!({"unique_states": st.unique_states, "generated": st.generated, "max_depth": st.max_depth}));
-        ctx.sample(json!({"Fresh": {"ops": ["sm2.sign", "sm2.sign"]}}));
+        let (st, hists) = explore_collect(vec![vec![]], Box::new(move |h: &[u16]| if h.len() < fresh_len { (0..OPS.len() as u16).collect() } else { vec![] }));
+        let fresh: Vec<Case> = hists.iter().filter(|h| h.len() >= 2).map(|h| Case::Fresh { ops: h.iter().map(|i| OPS[*i as usize].to_string()).collect() }).collect();
+        ctx.cov("freshness_model", json!({"unique_states": st.unique_states, "generated": st.generated, "max_depth": st.max_depth, "sequences_judged": fresh.len()}));
+        ctx.sample(serde_json::to_value(&fresh[fresh.len() / 2]).unwrap());
+        run_cases(ctx, &fresh, 1, eval);
     }
     // ---- monitor
     let before = ctx.violations().len();
